@@ -241,6 +241,10 @@ def precedence(ctx, repo):
                     for op in v.values:
                         if isinstance(op, ast.Name) and op.id in env:
                             layers += env[op.id]
+                        elif isinstance(op, ast.Call) and isinstance(op.func, ast.Name) and op.func.id == "load_aggregation_dict":
+                            layers += ["builtin"]
+                        elif isinstance(op, ast.DictComp) and "'aggr': 'sum'" in ast.unparse(op):
+                            layers += ["auto"]
                         else:
                             unknown = ast.unparse(op)
                     env[t] = layers
